@@ -221,6 +221,8 @@ def run_check(mod, tier: str, n_cases: int | None = None, max_reports: int = 4) 
             continue
         c, viol = unknown[0]
         budget = 10 if tier == "quick" else 30
+        if viol["class"] in ("non-termination", "livelock"):
+            budget = 2  # every probe of a hanging run costs a full watchdog period
         mc, mv, used = minimise(mod, c, viol, budget, parallel)
         path = engine.write_replay(prop, mc, mv, mc["histories"], minimised=used > 0)
         # a violation is only reported after its replay file reproduced it in fresh processes
